@@ -4,7 +4,7 @@
    hasher); `updates` feeds pieces to Hasher::update. *)
 From Coq Require Import NArith List Bool.
 From V Require Import Base.Res Base.Word gen.GenConsts Spec.Tree Model.Platform Model.RsChunk Model.RsHasher
-  Model.RsIo Proofs.IoP.
+  Model.RsIo Proofs.IoP Proofs.HasherP Proofs.C02P.
 Import ListNotations.
 Open Scope N_scope.
 
@@ -44,6 +44,19 @@ Theorem C11_mmap_decision_regular : forall n, n < 2 ^ 62 ->
   if rs_MIN_MMAP <=? n then Some n else None.
 Proof. exact mmap_decision_regular. Qed.
 
+(* together with C02: after update_reader the hasher has absorbed exactly the delivered prefix
+   (so finalize / count describe it), whatever the script; Ok(total) at end of file, the error otherwise *)
+Theorem C11_update_reader_refines : forall p, PlatformOK p -> forall K F, length K = 8%nat -> forall h bs data script,
+  InvS K F 0 h bs -> len (bs ++ data) < 2 ^ 64 ->
+  exists h' r, update_reader p h data script = Ok (h', r) /\
+    InvS K F 0 h' (bs ++ concat (fst (delivered (copy_fuel data script) data script))) /\
+    match snd (delivered (copy_fuel data script) data script) with
+    | EndEof => r = CopyOk (nlen (concat (fst (delivered (copy_fuel data script) data script))))
+    | EndErr k => r = CopyErr k
+    | EndFuel => False
+    end.
+Proof. exact update_reader_refines. Qed.
+
 Example C11_nonvacuous :
   let data := map N.of_nat (seq 0 300) in
   let script := [RDeliver 7; RInterrupted; RDeliver 100; RInterrupted; RError 5; RDeliver 9] in
@@ -56,3 +69,4 @@ Print Assumptions C11_delivered_pieces.
 Print Assumptions C11_copy_fuel_enough.
 Print Assumptions C11_write_consumes_all.
 Print Assumptions C11_mmap_decision_regular.
+Print Assumptions C11_update_reader_refines.
